@@ -16,6 +16,7 @@ package core
 import (
 	"errors"
 	"reflect"
+	"strconv"
 
 	"github.com/hprose/hprose-golang/v3/io"
 )
@@ -94,7 +95,7 @@ func (c serviceCodec) Decode(request []byte, context *ServiceContext) (name stri
 		}
 		decoder.Decode(&name)
 		if err = c.decodeMethod(name, context); err == nil {
-			args, err = c.decodeArguments(context.Method, decoder)
+			args, err = c.decodeArguments(context.Method, decoder, len(request))
 		}
 	case io.TagEnd:
 		name = "~"
@@ -112,7 +113,7 @@ func (c serviceCodec) decodeMethod(name string, context *ServiceContext) (err er
 	return err
 }
 
-func (c serviceCodec) decodeArguments(method Method, decoder *io.Decoder) (args []interface{}, err error) {
+func (c serviceCodec) decodeArguments(method Method, decoder *io.Decoder, maxCount int) (args []interface{}, err error) {
 	tag := decoder.NextByte()
 	if tag != io.TagList {
 		return
@@ -123,6 +124,10 @@ func (c serviceCodec) decodeArguments(method Method, decoder *io.Decoder) (args 
 		return args, decoder.Error
 	}
 	count := decoder.ReadInt()
+	if count < 0 || count > maxCount {
+		// every argument takes at least one byte of the request
+		return nil, errors.New("hprose/rpc/core: invalid argument count " + strconv.Itoa(count))
+	}
 	parameters := method.Parameters()
 	paramTypes := make([]reflect.Type, count)
 	if method.Func().Type().IsVariadic() {
